@@ -1,5 +1,7 @@
 import BddVerif.Props.C06
 import BddVerif.Lemmas.AlgoEqRestrictThm
+import BddVerif.Lemmas.AlgoEq2RelPanic
+import BddVerif.Lemmas.AlgoEq2RelPickRec
 #print axioms B.Props.C06.from_values_last_wins
 #print axioms B.Props.C06.select_canon
 #print axioms B.Props.C06.select_spec
@@ -30,3 +32,14 @@ import BddVerif.Lemmas.AlgoEqRestrictThm
 #print axioms B.AlgoEqR.from_values_eq_model
 #print axioms B.AlgoEqR.mk_partial_valuation_eq_model
 #print axioms B.AlgoEqR.restriction_const
+#print axioms B.AlgoEq2Rel.Bdd_select_eq_model
+#print axioms B.AlgoEq2Rel.Bdd_select_eq_canon
+#print axioms B.AlgoEq2Rel.Bdd_var_select_eq_canon
+#print axioms B.AlgoEq2Rel.Bdd_var_pick_eq_canon
+#print axioms B.AlgoEq2Rel.Bdd_var_pick_random_eq_canon
+#print axioms B.AlgoEq2Rel.Bdd_pick_eq_model
+#print axioms B.AlgoEq2Rel.Bdd_pick_spec
+#print axioms B.AlgoEq2Rel.Bdd_pick_random_eq_model
+#print axioms B.AlgoEq2Rel.Bdd_pick_random_spec
+#print axioms B.AlgoEq2Rel.Bdd_pick_panics
+#print axioms B.AlgoEq2Rel.sorted_eq_model
